@@ -89,6 +89,8 @@ func (m *Type) Clone(reuse *Type) *Type {
 		newStack = make([]value.Type, newStackSize)
 	}
 
+	newStack = verifCloneStack(m, newStack)
+
 	var newFP []int
 	if reuse != nil {
 		newFP = reuse.fp[:0]
